@@ -1,44 +1,92 @@
-(* C13, part 4b: the varint bytes (model/NumWire.v, hand model of writeBigInt / readBigInt, tied to the code by the
-   correspondence run).  PARTIAL: the round trip is proved by kernel computation for every integer of the stated finite
-   range (all 1-, 2- and 3-byte encodings and their boundaries); the general statement for every integer is not proved here. *)
+(* C13, part 4b: the varint bytes.  model/NumWire.v (this area's hand model of datacodec/varint.go writeBigInt / readBigInt,
+   compared with the compiled code by check C13) is proved extensionally equal to model/CqlWire.v's model of the same two Go
+   functions (compared with the code by the cql area); the round trip for EVERY integer is then the theorem
+   proofs/CqlVarintProofs.readBigInt_writeBigInt, transported along that equality. *)
 From Coq Require Import ZArith List Bool Lia.
-From GCNP Require Import base.GoInt base.GoNum model.NumWire.
+From Coq Require Import ZifyBool ZifyNat.
+From GCNP Require Import base.GoInt base.GoNum base.Bytes model.NumWire model.CqlWire proofs.CqlBytesLemmas proofs.CqlVarintProofs.
 Import ListNotations.
 Open Scope Z_scope.
 
-Fixpoint zrange (n : nat) (from : Z) : list Z := match n with O => [] | S k => from :: zrange k (from + 1) end.
-
-Lemma In_zrange n : forall from x, from <= x < from + Z.of_nat n -> In x (zrange n from).
+(* ---------- the two byte libraries agree ---------- *)
+Lemma be_bytes_agree n : forall x, GoNum.be_bytes n x = Bytes.be_bytes n x.
 Proof.
-  induction n as [|k IH]; intros from x H; [lia|].
-  cbn [zrange]. destruct (Z.eq_dec x from) as [->|Hne]; [left; reflexivity|right].
-  apply IH. lia.
+  induction n as [|k IH]; intro x; [reflexivity|].
+  rewrite be_bytes_cons. cbn [GoNum.be_bytes]. rewrite pow2_8n, IH. reflexivity.
 Qed.
 
-Definition rt_ok (n : Z) : bool := match readBigInt (writeBigInt n) with Some m => Z.eqb m n | None => false end.
-Definition bytes_ok (n : Z) : bool := forallb (fun b => (0 <=? b) && (b <? 256)) (writeBigInt n).
-
-Lemma varint_range_ok : forallb (fun n => rt_ok n && bytes_ok n) (zrange (Z.to_nat 140001) (-70000)) = true.
-Proof. vm_compute. reflexivity. Qed.
-
-Theorem varint_roundtrip_partial :
-  forall n, -70000 <= n <= 70000 ->
-  readBigInt (writeBigInt n) = Some n /\ Forall (fun b => 0 <= b < 256) (writeBigInt n).
+Lemma fold_be acc l : fold_left (fun a b => a * 256 + b) l acc = acc * 2 ^ (8 * Z.of_nat (List.length l)) + be_value l.
 Proof.
-  intros n H. pose proof varint_range_ok as F. rewrite forallb_forall in F.
-  assert (Hin: In n (zrange (Z.to_nat 140001) (-70000))) by (apply In_zrange; lia). specialize (F n Hin). apply andb_prop in F. destruct F as [F1 F2].
-  split.
-  - unfold rt_ok in F1. destruct (readBigInt (writeBigInt n)) as [m|]; [|discriminate].
-    apply Z.eqb_eq in F1. congruence.
-  - unfold bytes_ok in F2. rewrite forallb_forall in F2. apply Forall_forall. intros b Hb.
-    specialize (F2 b Hb). apply andb_prop in F2. destruct F2 as [A B]. apply Z.leb_le in A. apply Z.ltb_lt in B. lia.
+  revert acc. induction l as [|b r IH]; intro acc; cbn [fold_left be_value List.length].
+  - cbn. lia.
+  - rewrite IH. replace (8 * Z.of_nat (S (List.length r))) with (8 + 8 * Z.of_nat (List.length r)) by lia.
+    rewrite Z.pow_add_r by lia. change (2 ^ 8) with 256. ring.
 Qed.
 
-Theorem readBigInt_empty : readBigInt [] = None.
+Lemma be_value_agree l : be_value l = be_val l.
+Proof. unfold be_val. rewrite fold_be. lia. Qed.
+
+Lemma nth0_hd (l : list Z) : nth_Z l 0 = hd 0 l.
+Proof. destruct l; reflexivity. Qed.
+
+Lemma bitlen_agree x : NumWire.bitlen x = CqlWire.bitlen (Z.abs x).
+Proof. reflexivity. Qed.
+
+Lemma big_Bytes_agree x : 0 <= x -> big_Bytes x = big_bytes x.
+Proof.
+  intro H. unfold big_Bytes, big_bytes. rewrite bitlen_agree, be_bytes_agree. rewrite (Z.abs_eq x H). reflexivity.
+Qed.
+
+(* the value handed to Bytes() in the negative branch is positive: 2^length exceeds |n| *)
+Lemma neg_shift_pos n : n < 0 -> 0 < n + Z.shiftl 1 ((CqlWire.bitlen (Z.abs n) / 8 + 1) * 8).
+Proof.
+  intro H. destruct (bitlen_spec (Z.abs n) ltac:(lia)) as (HL & _ & Hhi).
+  set (L := CqlWire.bitlen (Z.abs n)) in *.
+  rewrite Z.shiftl_1_l.
+  assert (L <= (L / 8 + 1) * 8) by (pose proof (Z.div_mod L 8 ltac:(lia)); pose proof (Z.mod_pos_bound L 8 ltac:(lia)); lia).
+  pose proof (pow2_le_mono L ((L / 8 + 1) * 8) ltac:(lia)). lia.
+Qed.
+
+Theorem writeBigInt_agree n : NumWire.writeBigInt n = CqlWire.writeBigInt n.
+Proof.
+  unfold NumWire.writeBigInt, CqlWire.writeBigInt.
+  destruct (Z.ltb_spec 0 n) as [Hp|Hp].
+  - rewrite (Z.sgn_pos n Hp). rewrite big_Bytes_agree by lia. rewrite nth0_hd, Z.gtb_ltb. reflexivity.
+  - destruct (Z.ltb_spec n 0) as [Hn|Hn].
+    + rewrite (Z.sgn_neg n Hn). rewrite bitlen_agree.
+      pose proof (neg_shift_pos n Hn) as Hpos.
+      rewrite big_Bytes_agree by lia.
+      destruct (big_bytes _) as [|b0 [|b1 r]]; try reflexivity.
+      unfold len_Z, nth_Z. cbn [List.length nth Z.to_nat Pos.to_nat Pos.iter_op Nat.add tl].
+      replace (Z.of_nat (S (S (List.length r))) >=? 2) with true by lia. reflexivity.
+    + assert (n = 0) by lia. subst n. reflexivity.
+Qed.
+
+Theorem readBigInt_agree l : NumWire.readBigInt l = CqlWire.readBigInt (Some l).
+Proof.
+  unfold NumWire.readBigInt, CqlWire.readBigInt, src_bytes, big_SetBytes.
+  change (len_Z l) with (zlen l). rewrite !Z.gtb_ltb, nth0_hd, be_value_agree. reflexivity.
+Qed.
+
+(* ---------- full strength: every integer ---------- *)
+Theorem varint_roundtrip :
+  forall n : Z, NumWire.readBigInt (NumWire.writeBigInt n) = Some n /\ Forall (fun b => 0 <= b < 256) (NumWire.writeBigInt n).
+Proof.
+  intro n. rewrite readBigInt_agree, writeBigInt_agree. split.
+  - apply readBigInt_writeBigInt.
+  - exact (writeBigInt_bytes_ok n).
+Qed.
+
+(* the bytes are the specification's minimal two's complement (spec/SpecCql.v), hence never empty *)
+Theorem writeBigInt_is_spec n : NumWire.writeBigInt n = SpecCql.spec_varint n.
+Proof. rewrite writeBigInt_agree. apply writeBigInt_spec. Qed.
+
+Theorem readBigInt_empty : NumWire.readBigInt [] = None.
 Proof. reflexivity. Qed.
 
 Example varint_examples :
-  writeBigInt 0 = [0] /\ writeBigInt (-1) = [255] /\ writeBigInt 128 = [0; 128] /\ writeBigInt (-129) = [255; 127] /\
-  writeBigInt 18446744073709551616 = [1; 0; 0; 0; 0; 0; 0; 0; 0] /\
-  readBigInt (writeBigInt (-340282366920938463463374607431768211456)) = Some (-340282366920938463463374607431768211456).
+  NumWire.writeBigInt 0 = [0] /\ NumWire.writeBigInt (-1) = [255] /\ NumWire.writeBigInt 128 = [0; 128] /\
+  NumWire.writeBigInt (-129) = [255; 127] /\
+  NumWire.writeBigInt 18446744073709551616 = [1; 0; 0; 0; 0; 0; 0; 0; 0] /\
+  NumWire.readBigInt (NumWire.writeBigInt (-340282366920938463463374607431768211456)) = Some (-340282366920938463463374607431768211456).
 Proof. repeat split; vm_compute; reflexivity. Qed.
